@@ -10,7 +10,7 @@ The Cython variants (get_gev_vector.pyx, c_eig.pyx) are not built on this image 
 """
 from ..model import AnalysisError
 from ..terms import T, walk_terms
-from ..walk import data_derives, ret_alts, call_parts, call_arg, is_call_to, const_val, NOVAL, strip_views, unwrap_gamma, is_conj, same_value
+from ..walk import data_derives, ret_alts, call_parts, call_arg, is_call_to, const_val, NOVAL, strip_views, unwrap_gamma, is_conj, same_value, as_norm, struct_eq
 from .. import ein, sel
 
 B = 'pb_bss.extraction.beamformer::'
@@ -107,7 +107,8 @@ def check_pca(run, A):
                     b = strip_views(b)
                     if b.op in ('binop', 'iop') and b.args[0] == 'Div':
                         den = b.args[2]
-                        okd = is_call_to(den, 'numpy.linalg.norm') and const_val(call_arg(den, None, 'axis')) == -1
+                        nrm = as_norm(den)
+                        okd = nrm is not None and nrm[1] is not None and const_val(nrm[1]) == -1
                         # the gain may be selected before one shared division by the norm
                         for num in unwrap_gamma(b.args[1]):
                             num = strip_views(num)
@@ -217,12 +218,30 @@ def check_ban(run, A):
     okr = False
     if ret.op == 'binop' and ret.args[0] == 'Mult':
         v, gterm = ret.args[1], ret.args[2]
-        if strip_views(v).op == 'param' and strip_views(v).args[0] == 'vector' and is_call_to(gterm, 'numpy.abs', 'numpy.absolute'):
+        if not (strip_views(v).op == 'param' and strip_views(v).args[0] == 'vector'):
+            v, gterm = gterm, v          # the product commutes
+        # |gain[..., None]| and |gain|[..., None] are the same
+        inner = None
+        if is_call_to(gterm, 'numpy.abs', 'numpy.absolute'):
             inner = trailing_none(call_arg(gterm, 0))
-            okr = inner is not None and is_call_to(strip_views(inner), 'numpy.divide')
-            if okr:
-                dv = strip_views(inner)
+        elif trailing_none(gterm) is not None and is_call_to(strip_views(trailing_none(gterm)), 'numpy.abs', 'numpy.absolute'):
+            inner = call_arg(strip_views(trailing_none(gterm)), 0)
+        if strip_views(v).op == 'param' and strip_views(v).args[0] == 'vector' and inner is not None:
+            dv = strip_views(inner) if inner is not None else None
+            num = den = None
+            if dv is not None and is_call_to(dv, 'numpy.divide'):
                 num, den = call_arg(dv, 0), call_arg(dv, 1)
+            elif dv is not None and dv.op == 'store' and strip_views(dv.args[2]).op == 'binop' and strip_views(dv.args[2]).args[0] == 'Div':
+                # out-of-place form: normalization = zeros; normalization[valid] = nominator[valid] / denominator[valid]
+                q_ = strip_views(dv.args[2])
+                num, den = strip_views(q_.args[1]), strip_views(q_.args[2])
+                # both sides are read through the same mask as the store
+                if num.op == 'sub' and den.op == 'sub' and struct_eq(num.args[1], den.args[1]) and struct_eq(num.args[1], dv.args[1]):
+                    num, den = num.args[0], den.args[0]
+                else:
+                    num = den = None
+            okr = num is not None and den is not None
+            if okr:
                 two = [s for s in sites if len(s.operands) == 4]
                 one = [s for s in sites if len(s.operands) == 3]
                 okr = bool(two) and bool(one) and any(x is two[0].term for x in walk_terms(num)) and any(x is one[0].term for x in walk_terms(den)) \
